@@ -116,6 +116,15 @@ theorem serial_step (h : Reach lim ls s) {w w' : Wid} {e e' : Ev} {s' : State}
   step_cases ht
   grind [Pc.live_spawned, Pc.live_waiting, Pc.live_busy]
 
+/-- … and the same for the take that follows a timeout on a filled queue. -/
+theorem serial_step_timeout (h : Reach lim ls s) {w w' : Wid} {e e' : Ev} {s' : State}
+    (hb : s.pc w' = some (.busy e')) (ht : step s (.timeoutTake w e) = some s') : w.key ≠ w'.key := by
+  have hi := inv_reach h
+  intro hk
+  have huniq := hi.uniq w w'
+  step_cases ht
+  grind [Pc.live_spawned, Pc.live_waiting, Pc.live_busy]
+
 /-- `settings.queueing.worker_limit` never changes. -/
 theorem limit_const (h : Reach lim ls s) : s.limit = lim := by
   have key : ∀ (ls : List Label) (s0 s1 : State), run s0 ls = some s1 → s1.limit = s0.limit := by
@@ -286,7 +295,7 @@ theorem independent_spawn (s : State) :
 /-- **Frame**: a worker segment of key `k'` leaves every other key's component untouched — stream,
     histories, failure flag and the program counters of all other keys' instances. -/
 theorem frame_other_key {s s' : State} {l : Label} {w : Wid} (k : Key) (hk : w.key ≠ k)
-    (hl : l = .take w e ∨ l = .finish w ∨ l = .fail w ∨ l = .retry w ∨ l = .retire w ∨
+    (hl : l = .take w e ∨ l = .finish w ∨ l = .fail w ∨ l = .timeoutTake w e ∨ l = .retire w ∨
           l = .eosExit w ∨ l = .kill w)
     (h : step s l = some s') :
     s'.streams k = s.streams k ∧ s'.arrived k = s.arrived k ∧ s'.started k = s.started k ∧
@@ -337,9 +346,9 @@ example : ∃ s, Reach none [.miss 0 1, .insert, .spawn, .take ⟨0, 0⟩ 1, .fi
   ⟨_, rfl, rfl, by decide, by decide⟩
 
 /-- the other order of the same instant: the event is put first, the timeout fires on a filled queue
-    (`retry`, the case the code comment calls impossible to simulate), nothing is lost either. -/
+    (`timeoutTake`, the case the code comment calls impossible to simulate), nothing is lost either. -/
 example : ∃ s, Reach none [.miss 0 1, .insert, .spawn, .take ⟨0, 0⟩ 1, .finish ⟨0, 0⟩, .arrive 0 2,
-      .retry ⟨0, 0⟩, .take ⟨0, 0⟩ 2, .finish ⟨0, 0⟩] s ∧ s.processed 0 = [1, 2] ∧ s.arrived 0 = [1, 2] :=
+      .timeoutTake ⟨0, 0⟩ 2, .finish ⟨0, 0⟩] s ∧ s.processed 0 = [1, 2] ∧ s.arrived 0 = [1, 2] :=
   ⟨_, rfl, by decide, by decide⟩
 
 /-- in the model of the real code the window of `buggy_loses` does not exist: `retireCheck` is not a label
